@@ -244,14 +244,14 @@ def gen_domain(rng, finite_only=False, small=False, misaligned=False):
             return ["ordinal", [rng.sample(["s", "m", "l", "xl", "xxl"], n)], {"kind": "equal"}]
         return ["ordinal", [rng.sample([1, 2, 4, 8, 16, 3], n)], {"kind": "equal"}]
     if k == "ordinal_nn":
-        n = rng.randint(1, 5)
+        n = rng.randint(2, 5)  # a single-value nearest-neighbour ordinal is rejected by make_hyperparameter_ranges
         if rng.random() < 0.5:
             cats = sorted(rng.sample(range(-4, 20), n))
         else:
             cats = sorted(rng.sample([x / 4 for x in range(-8, 40)], n))
         return ["ordinal", [cats], {"kind": "nn"}]
     if k == "logordinal":
-        n = rng.randint(1, 5)
+        n = rng.randint(2, 5)
         if rng.random() < 0.5:
             cats = sorted(rng.sample([1, 2, 4, 8, 16, 32, 3, 5, 100], n))
         else:
@@ -686,3 +686,14 @@ def run_searcher_scenario(spec):
                               searcher_state(kind, s)))
     return {"lines": lines, "events": events, "cs": cs_full, "searcher": sch.searcher if sch else s, "sched": sch,
             "hp_cs": cs}
+
+
+def compare(inp, impl, model):
+    """canonical equality of every observed key; errors compared by class"""
+    from framework import default_compare
+
+    if impl is None:
+        return None
+    if "err" in model and isinstance(model["err"], str) and model["err"].startswith("init: "):
+        model = {"err": model["err"][len("init: "):]}
+    return default_compare(inp, impl, model)
